@@ -131,5 +131,5 @@ def cases(draw):
 
 
 PARTS = [
-    Part('sessions', 'hyp', run_case, strategy=cases(), quick=800, thorough=80000, quick_shards=8),
+    Part('sessions', 'hyp', run_case, strategy=cases(), quick=1600, thorough=80000, quick_shards=8),
 ]
